@@ -5,9 +5,13 @@
 PID="$1"; SEED="$2"; shift 2
 cd /repo || exit 3
 git diff --quiet || { echo "repo not clean"; exit 3; }
+# the gcc jitter caches compiled blocks by a hash of the guest code only: entries left by another tree would be reused
+rm -rf /tmp/miasm_cache
 PYTHONPATH=/repo timeout 300 ${SEED_PY:-/venv/bin/python} "$SEED/demo.py" >/tmp/seed_demo0.out 2>&1; D0=$?
+rm -rf /tmp/miasm_cache
 git apply "$SEED/patch.diff" || { echo "patch does not apply"; exit 3; }
 PYTHONPATH=/repo timeout 300 ${SEED_PY:-/venv/bin/python} "$SEED/demo.py" >/tmp/seed_demo1.out 2>&1; D1=$?
+rm -rf /tmp/miasm_cache
 if [ -n "$SEED_RUN_TESTS" ]; then
   timeout 1500 /venv/bin/python -m pytest -q -x -p no:cacheprovider --timeout=900 test/arch/mep >/tmp/seed_tests.out 2>&1; T=$?
 else T=skipped; fi
